@@ -406,7 +406,13 @@ func (l *lexer) next() rune {
 }
 
 func (l *lexer) nextToken() Token {
-	return <-l.tokens
+	tok, ok := <-l.tokens
+	if !ok {
+		// the lexer has finished (after EOF or an error): there is nothing
+		// more to read, a zero Token would never end the parser's loops
+		return Token{Kind: EOF}
+	}
+	return tok
 }
 
 func (l *lexer) peek() rune {
